@@ -304,6 +304,95 @@ theorem element_holds_bit_patterns (x : PMInput) (o : PMObject) (h : build x = .
     simp [plane]
   rw [this, hcell, ofLeBytes_leBytes _ _ (hb _ _ _)]
 
+/-! ### the native frame through `decode_frame`: bytes -> stored values -/
+
+theorem ofLeBytes_lt (l : List Nat) (hb : ∀ b ∈ l, b < 256) : ofLeBytes l < 256 ^ l.length := by
+  induction l with
+  | nil => simp [ofLeBytes]
+  | cons b bs ih =>
+    have h1 : b < 256 := hb b (by simp)
+    have h2 := ih (fun b' hb' => hb b' (by simp [hb']))
+    simp only [ofLeBytes, List.length_cons, Nat.pow_succ]
+    omega
+
+/-- pydicom's cells -> numbers on unsigned cells with all bits stored: the little-endian value of every cell -/
+theorem decodeCells_flatten (k : Nat) (cells : List Cell) (hlen : ∀ c ∈ cells, c.length = k)
+    (hb : ∀ c ∈ cells, ∀ b ∈ c, b < 256) (tail : List Nat) :
+    decodeCells k false (8 * k) cells.length (cells.flatten ++ tail) = cells.map cellValue := by
+  induction cells with
+  | nil => rfl
+  | cons c cs ih =>
+    have hc : c.length = k := hlen c (by simp)
+    simp only [List.length_cons, decodeCells, List.flatten_cons, List.append_assoc, List.map_cons]
+    rw [List.take_append_of_le_length (by omega), List.take_of_length_le (by omega),
+        List.drop_append_of_le_length (by omega), List.drop_of_length_le (by omega), List.nil_append]
+    rw [ih (fun c' h' => hlen c' (by simp [h'])) (fun c' h' => hb c' (by simp [h']))]
+    congr 1
+    unfold maskStored cellValue
+    simp only [Bool.false_eq_true, ↓reduceIte]
+    have hlt := ofLeBytes_lt c (hb c (by simp))
+    rw [hc, pow256] at hlt
+    rw [Nat.mod_eq_of_lt hlt]
+
+/-- **The native read path goes through `decode_frame`**: what a reader of the image classes obtains from the raw bytes of
+frame `f` of a native uint8 / uint16 map -- `decode_frame` (dispatch regenerated, T13c) with the data set's attributes, then
+pydicom's cells -> numbers -- is the little-endian value of every cell of plane `f / m`, channel `f mod m`: the `cellValue`s the
+real-world mapping is applied to in `read_applies_attached_mapping_partial`. -/
+theorem native_frame_through_decode (c : CodecImpl) (conv : List Int → List Int) (x : PMInput) (o : PMObject) (h : build x = .ok o)
+    (hts : x.ts ∈ nativeSyntaxes) (hel : o.element = "PixelData") (hw : CellsWF x)
+    (hbytes : ∀ i k j, ∀ b ∈ x.cell i k j, b < 256) (hsz : x.itemsize = 1 ∨ x.itemsize = 2)
+    (hshape : shapeInRange x.r x.c = true) (i j : Nat) (index : Int) :
+    readFrame c conv (o.module x.ts) (plane x i j).flatten index = .ok ((plane x i j).map cellValue) := by
+  obtain ⟨t, attr, ba, bs, hb, pr, hadm, hattr, hBA, hBS, _, hPR, hr, hc, hi, _, _, _, _⟩ := build_ok x o h
+  have had := admission_sound x t attr ba bs hb pr hadm
+  have hd : ba = (x.itemsize : Int) * 8 ∧ bs = (x.itemsize : Int) * 8 ∧ pr = 0 := by
+    rcases had.dtype with ⟨_, _, _, h1, h2, _, h4⟩ | ⟨_, _, he, _⟩ | ⟨_, _, he, _⟩
+    · exact ⟨h1, h2, h4⟩
+    · rw [hel] at hattr; rw [← hattr] at he; exact absurd he (by decide)
+    · rw [hel] at hattr; rw [← hattr] at he; exact absurd he (by decide)
+  unfold readFrame PMObject.module PixelModule.params PixelModule.storedOrAllocated
+  simp only [hr, hc, hBA, hBS, hPR, hd.1, hd.2.1, hd.2.2]
+  have hba1 : ((x.itemsize : Int) * 8) ≠ 1 := by omega
+  rw [decode_index_irrelevant c conv _ x.r x.c 1 _ index 0 (fun hh => hba1 hh.1)]
+  have hroute : decodeFrameRoute false ((x.itemsize : Int) * 8) ((1 : Nat) : Int) "MONOCHROME2" 0 none = .ok 2 := by
+    have := decodeRoute_pydicom false ((x.itemsize : Int) * 8) ((1 : Nat) : Int) "MONOCHROME2" 0 none
+      (Or.inr hba1) (Or.inl rfl) (Or.inl (Or.inr (Or.inl rfl))) (fun hgt => by simp at hgt)
+    simpa using this
+  unfold decodeFrame
+  rw [isEncapsulated_native _ hts, hroute]
+  simp only [bind, Except.bind]
+  have h21 : ¬ ((2 : Int) = 1) := by decide
+  simp only [h21, ↓reduceIte]
+  unfold pydicomNative
+  have hcells : ∀ cl ∈ plane x i j, cl.length = x.itemsize := by
+    intro cl hcl
+    simp only [plane, List.mem_map, List.mem_range] at hcl
+    obtain ⟨k, _, rfl⟩ := hcl
+    exact hw _ _ _
+  have hcb : ∀ cl ∈ plane x i j, ∀ b ∈ cl, b < 256 := by
+    intro cl hcl
+    simp only [plane, List.mem_map, List.mem_range] at hcl
+    obtain ⟨k, _, rfl⟩ := hcl
+    exact hbytes _ _ _
+  have hfl : (plane x i j).flatten.length = x.r * x.c * x.itemsize := plane_flatten_length x hw i j
+  have hdc := decodeCells_flatten x.itemsize (plane x i j) hcells hcb []
+  rw [List.append_nil, plane_length] at hdc
+  obtain ⟨dt, hdt, hdsz⟩ : ∃ dt, decodedDType ((x.itemsize : Int) * 8) 0 = .ok dt ∧ dt.itemsize = x.itemsize := by
+    rcases hsz with h1 | h2
+    · exact ⟨.u8, by rw [h1]; rfl, by rw [h1]; rfl⟩
+    · exact ⟨.u16, by rw [h2]; rfl, by rw [h2]; rfl⟩
+  rw [hdt]
+  simp only [bind, Except.bind, hdsz]
+  rw [if_neg (by rw [hshape]; decide), if_neg (by rw [hfl, Nat.mul_one]; omega), if_neg (by rw [hfl, Nat.mul_one]; omega)]
+  have hnp : ¬ (1 > 1 ∧ (none : Option Int) = some 1) := by simp
+  rw [if_neg hnp]
+  have hcc : convertsColour "MONOCHROME2" 1 = false := by decide
+  rw [hcc]
+  simp only [Bool.false_eq_true, ↓reduceIte]
+  have h01 : ((0 : Int) == 1) = false := by decide
+  have hst : ((x.itemsize : Int) * 8).toNat = 8 * x.itemsize := by omega
+  rw [h01, hst, Nat.mul_one, hdc]
+
 /-! ### a secondary capture through the readers of the image classes -/
 
 /-- **`get_stored_frame` / `get_frame` / `ImageFileReader.read_frame` on a written secondary capture = pydicom's decode of it**:
